@@ -170,6 +170,7 @@ pub fn reference_for(case: &Case, plan: &FaultPlan, preload: bool, with_reverts:
         preload_beneficiary: preload,
         with_reverts,
         precompiles: &[],
+        raw_precompiles: &[],
         probe_addrs: &addrs,
         probe_slots: &slots,
         before_readback: &move || db2.disarm(),
